@@ -365,7 +365,7 @@ pub fn run_case(ctx: &mut Ctx, fam: &str, _k: u64, r: &mut Rng) {
             }
             for j in 0..g.vals.len() {
                 let want = b.value.vals[j] - spec.lr * grads[i][j] * mult;
-                let sc = (b.value.vals[j].abs() + spec.lr * scales[i][j] * mult).max(1.0) * 10.0;
+                let sc = (b.value.vals[j].abs() + spec.lr.abs() * scales[i][j] * mult).max(1.0) * 10.0;
                 if !((a.value.vals[j] - want).abs() <= tau() * sc) {
                     ctx.violation(
                         "C14|step-values",
